@@ -5,6 +5,14 @@ import json, subprocess
 HOOK_COMMITS = subprocess.run(["git","-C","/repo","log","--format=%H %s","--grep=^verif hook"],capture_output=True,text=True).stdout.strip().splitlines()
 
 CHECKS = {
+ "C02": ("fault_enumeration","3/C02",
+   "Hostile byte strings (random up to 4 KiB, structured mutations of valid frames, the three 64-bit length fields over boundary classes including wrapping and saturating sums) are fed to Header::decode, Message/MessageView::from_slice(_exact), read_message, read_message_into and the async twins through a reader seam that chunks, injects EINTR / spurious Pending and truncates at a seeded byte position; a hostile peer on the simulated network sends the same bytes to the real blocking Server (then a healthy connection must still be served) and, as a server, to the real blocking Client with calls in flight. Oracle: the independent codec's verdict in 128-bit arithmetic (acceptance, returned payload bytes, bytes consumed), catch_unwind for panics, and worker-process death attributed to the journalled case for aborts.",
+   "declared sizes for stream readers are <= 16 MiB or >= 2^62 for the frame and for each payload (never in between), workers run under RLIMIT_AS so an impossible allocation fails the same way everywhere; async TCP / WebSocket endpoints are covered by their own families.",
+   "deterministic simulation: hostile-peer + faulting-reader fault injection, independent-codec oracle, abort detection by process journal"),
+ "C03": ("exploration","3/C03",
+   "Pipelined request sequences (1-64 requests: valid/invalid version, every query-format code, non-UTF-8 queries, registered/unregistered/mounted paths, every built-in handler kind incl. the _blocking and middleware-wrapped ones, every body-format code with well-formed, malformed and empty bodies, notify 0/1) are sent by a raw scripted client over the simulated network (seeded chunking, delays, short I/O, thread schedules) and compared with a routing/dispatch reference model: exactly one response per non-notify request in arrival order, none per notify, error code, echoed (or handler-chosen) query, body for deterministic handlers, user closure and middleware invocation counts.",
+   "handlers used for comparison are deterministic; notify flags are 0 or 1; registry/struct mounts are modelled only as far as C03 states (response, id, query, error class).",
+   "deterministic simulation: seeded pipelined histories vs. routing reference model"),
  "C04": ("exploration","3/C04",
    "1-64 concurrent callers and batch_json calls on clones of one real client against a scripted server on the simulated network that answers in seeded (permuted) order and injects unknown-id and duplicated response frames; every scheduling point of register/write/receive/match/deliver is a seeded kernel decision, socket I/O is chunked, delayed and interrupted (short reads/writes, EINTR). Each call must return its own token, batches stay positionally aligned, request ids on a connection are distinct, nothing stays pending.",
    "simulated socket semantics (DESIGN.md 2.2); scripted peer written with the harness's independent codec.",
@@ -50,7 +58,7 @@ NOT_APPLICABLE = [
 # properties that are planned but whose check is not registered yet are listed as not claimed
 PENDING = {
  "C01":"check under construction in this session (wire tap + emission routes)",
- "C02":"check under construction", "C03":"check under construction",
+
 "C09":"check under construction",
  "C10":"check under construction","C14":"check under construction","C15":"check under construction",
  "C16":"check under construction","C17":"check under construction","C18":"check under construction",
